@@ -1,2 +1,135 @@
-(* placeholder — replaced below *)
-From NV Require Import Base ClientLTS.
+(* C13 — gateway clients recover from every connection fault and never stall the loop.
+   Statements only; proofs live in ClientLTSProofs.v.  Model: ClientLTS.v — nmea2000/ioclient.py
+   (AsyncIOClient.connect / _receive_loop / send / close / _process_queue / _update_state, the read behaviour of the
+   four `_receive_impl`s, tenacity's AsyncRetrying + wait_exponential) as a labelled transition system with a
+   nondeterministic scheduler and peer.  `trans k fe fc fl` : [k] = client kind (readexactly / readline / read),
+   [fe fc fl] = the repairs F-eofspin, F-closerace, F-connect-lost (all in /repo now); the theorems are about
+   [true true true], for EVERY kind, EVERY reachable state and EVERY run (any length, any schedule, any peer behaviour).
+   `reachable k fe fc fl x` := exists ls, run k fe fc fl init ls = Some x.  Delays are in units of 0.5 s. *)
+From NV Require Import Base ClientLTS ClientLTSProofs.
+
+(* ---- after a fault: DISCONNECTED is reported (once), and a reconnect is on its way ---- *)
+(* `fault_cb a = Some c`: [a] is a read fault in the receive loop (exception from `_receive_impl`, incl. end of stream and
+   the EByte 'Sorry,Limited' path) or a write fault in send(); [c] is what the status callback did.
+   `reconnect_pending y`: a connect() owns the lock, or one is scheduled (create_task), or the fault handler is still
+   inside the status callback and will schedule one. *)
+Theorem C13_fault_reported : forall k x a y c,
+  reachable k true true true x -> fault_cb a = Some c -> st x <> Closed -> trans k true true true x a = Some y ->
+  st y = Disc /\ reconnect_pending y /\
+  (st x = Conn -> c <> CbNone /\ trace y = Disc :: trace x) /\
+  (st x = Disc -> c = CbNone /\ trace y = trace x).
+Proof. exact fault_reported. Qed.
+Print Assumptions C13_fault_reported.
+
+(* no reconnect request is ever lost: in EVERY reachable state that is DISCONNECTED after a notification (i.e. after a
+   connection had been up), a reconnect is pending - this is what F-connect-lost broke *)
+Theorem C13_reconnect_never_lost : forall k x,
+  reachable k true true true x -> st x = Disc -> trace x <> [] -> reconnect_pending x.
+Proof. exact reconnect_never_lost. Qed.
+Print Assumptions C13_reconnect_never_lost.
+
+Theorem C13_lock_iff_connect_running : forall k x,
+  reachable k true true true x -> (lock x = true <-> hold x <> HNone).
+Proof. exact lock_iff_holder. Qed.
+Print Assumptions C13_lock_iff_connect_running.
+
+(* ---- retries: growing, capped, never-zero delay; for as long as needed ---- *)
+Theorem C13_backoff : forall n, 1 <= n ->
+  0 < wait2 n <= 20 /\ wait2 n <= wait2 (n + 1) /\ (n <= 5 -> wait2 n = 2 ^ (n - 1)) /\ (6 <= n -> wait2 n = 20).
+Proof. exact backoff_spec. Qed.
+Print Assumptions C13_backoff.
+
+Theorem C13_backoff_monotone : forall n m, 1 <= n -> n <= m -> wait2 n <= wait2 m.
+Proof. exact wait2_mono. Qed.
+Print Assumptions C13_backoff_monotone.
+
+(* a failing attempt number n (n >= 1 in every reachable state) is followed by a sleep of exactly wait2 n, between 0.5 s and
+   10 s, with the lock kept ... *)
+Theorem C13_retry_delay : forall k x a y d,
+  reachable k true true true x -> a = AImplFail d \/ a = AImplFailOpened d -> trans k true true true x a = Some y ->
+  exists n, (1 <= n)%nat /\ (hold x = HAwaitImpl n \/ hold x = HAwaitDrain n) /\ hold y = HBackoff n /\
+            d = wait2 (Z.of_nat n) /\ 1 <= d <= 20 /\ lock y = true /\ st y = st x.
+Proof. exact retry_delay. Qed.
+Print Assumptions C13_retry_delay.
+
+(* ... and, unless the client was closed, by attempt n+1: for every n (stop_never) *)
+Theorem C13_retry_continues : forall k x n,
+  hold x = HBackoff n -> st x <> Closed -> allowed x ABackoffDone = true ->
+  exists y, trans k true true true x ABackoffDone = Some y /\ hold y = HAwaitImpl (S n) /\ attempts y = S (attempts x).
+Proof. exact retry_continues. Qed.
+Print Assumptions C13_retry_continues.
+
+(* ---- the gateway accepts again: CONNECTED is reported, a fresh receive task is created and runs ---- *)
+Theorem C13_connect_succeeds : forall k x y cb,
+  st x <> Closed -> trans k true true true x (AImplOk cb) = Some y ->
+  st y = Conn /\ (st x <> Conn -> cb <> CbNone /\ trace y = Conn :: trace x) /\
+  match cb with
+  | CbSusp => hold y = HStatusCb
+  | _ => (rx_alive x = true /\ hold y = HCancelWait /\ rx_creq y = true) \/
+         (rx_alive x = false /\ rx y = RCreated /\ rx_creq y = false /\ lock y = false)
+  end.
+Proof. exact connect_succeeds. Qed.
+Print Assumptions C13_connect_succeeds.
+
+(* whenever the connect() that owns the lock finishes (any path: directly, after the status callback, after the cancel
+   wait), the client is CLOSED or a fresh, not-cancelled receive task exists, no other receive task is live, and if a
+   fault was reported meanwhile another connect() is already scheduled *)
+Theorem C13_connect_finishes : forall k x a y,
+  reachable k true true true x -> lock x = true -> trans k true true true x a = Some y -> lock y = false ->
+  st y = Closed \/
+  (rx y = RCreated /\ rx_creq y = false /\ old_live y = 0%nat /\
+   (st y = Conn \/ (st y = Disc /\ (0 < pending_connects y)%nat))).
+Proof. exact connect_finishes. Qed.
+Print Assumptions C13_connect_finishes.
+
+Theorem C13_fresh_receive_task_runs : forall k x y,
+  st x <> Closed -> trans k true true true x ARxStart = Some y -> rx x = RCreated /\ rx y = RRun.
+Proof. exact fresh_receive_task_runs. Qed.
+Print Assumptions C13_fresh_receive_task_runs.
+
+(* ---- only one receive path ---- *)
+(* `old_live` counts receive tasks that were replaced by a new one without having finished or been cancelled *)
+Theorem C13_single_receive_path : forall k x, reachable k true true true x -> old_live x = 0%nat.
+Proof. exact single_receive_path. Qed.
+Print Assumptions C13_single_receive_path.
+
+Theorem C13_old_receive_task_cancelled : forall k x,
+  reachable k true true true x -> hold x = HCancelWait -> rx_alive x = false \/ rx_creq x = true.
+Proof. exact old_receive_task_cancelled. Qed.
+Print Assumptions C13_old_receive_task_cancelled.
+
+(* ---- never monopolises the event loop ---- *)
+(* `busy x`: the receive loop or the queue consumer is in the middle of an event-loop step (it continued without
+   suspending).  `busy_run`: every step of the run is taken from a busy state, i.e. nobody else got the loop.  Such a burst
+   is bounded by the bytes already buffered / messages already queued, whatever the peer does (incl. end of stream). *)
+Theorem C13_never_monopolises : forall k x ls y,
+  reachable k true true true x -> busy_run k true true true x ls = Some y ->
+  (length ls <= S (Z.to_nat (Z.max (buf x) (q x))))%nat.
+Proof. exact never_monopolises. Qed.
+Print Assumptions C13_never_monopolises.
+
+(* ---- the code as it was (repair switched off): the defects are runs of the model ---- *)
+(* F-eofspin: the text (and serial) client after end of stream: an unbounded burst, for every n *)
+Theorem C13_eofspin_as_it_was : exists s,
+  run KText false true true init spin_prefix = Some s /\ busy s = true /\ st s = Conn /\
+  forall n, busy_run KText false true true s (repeat (ARxIter (RxRet 0 0)) n) = Some s.
+Proof. exact eofspin_as_it_was. Qed.
+Print Assumptions C13_eofspin_as_it_was.
+
+(* F-connect-lost: DISCONNECTED, nothing pending, for ever *)
+Theorem C13_connect_lost_as_it_was : exists x,
+  run KEByte true true false init connect_lost = Some x /\
+  st x = Disc /\ lock x = false /\ pending_connects x = 0%nat /\ send_cb x = 0%nat /\ rx x = RWait /\ trace x = [Disc; Conn].
+Proof. exact connect_lost_as_it_was. Qed.
+Print Assumptions C13_connect_lost_as_it_was.
+
+(* ---- non-vacuity: a session with a refused attempt, a connection, end of stream mid-frame, back-off and recovery is a
+   run of the repaired model, and reaches the states the theorems talk about ---- *)
+Example C13_nonvacuous : exists x,
+  run KEByte true true true init
+    [AConsStart; AUserConnect; AConnEntry true; AImplFail 1; ABackoffDone; AImplOk CbRet; ARxStart; ARxIter RxSusp;
+     AEnvFeed 20; ARxIter (RxRet 7 1); ARxIter RxSusp; AConsGot RcRet;
+     AEnvEof; ARxIter (RxRaise 0 CbRet); AConnEntry true; AImplFail 1; ABackoffDone; AImplFail 2; ABackoffDone;
+     AImplOk CbRet; ARxStart; ARxIter RxSusp] = Some x /\
+  st x = Conn /\ trace x = [Conn; Disc; Conn] /\ attempts x = 5%nat /\ rx x = RWait /\ old_live x = 0%nat /\ writer x = Some 1%nat.
+Proof. eexists. vm_compute. repeat split. Qed.
